@@ -5,10 +5,10 @@ import vlib, suites
 from fhgen import *
 
 RULE = ("decision matrix: {no module, module without sections, own index that cannot be built, FDE gap / before first / "
-        "after last FDE} x {first, caller} x {x86_64, aarch64} x three presentations, plus frame-pointer chains of "
+        "after last FDE, no PE function-table entry, PE on aarch64} x {first, caller} x {x86_64, aarch64} x three presentations, plus frame-pointer chains of "
         "length 0..6 with varied spacing/alignment ending in the architecture's null marker or a null return address; "
         "distinct = (arch, reason, first/caller | chain length)")
-ASSUMPTIONS = ["stack reader is a pure partial function", "Mach-O / PE reasons are added with their models"]
+ASSUMPTIONS = ["stack reader is a pure partial function", "Mach-O reasons (outside __unwind_info) are added with C02's model"]
 TRUSTED_BASE = ["modelled not verified: gimli"]
 
 def expect_fp(arch, sp, fp, lr, mem, mask=M64):
@@ -68,8 +68,13 @@ def generate(rng, tier):
                   dict(start=0x200, len=0x40, rows=[(0, suites.std_row(arch, "frameless", 4))])]
             s.module_dwarf("MG%d" % j, lo, lo + 0x1000, lo, 0, pres, fd, rng, shuffle=True)
             gaps[pres] = [lo + 0x10, lo + 0xff, lo + 0x140, lo + 0x1ff, lo + 0x240, lo + 0x800]
+        # a PE module: addresses without a function-table entry (x86_64: leaf in EVERY frame); PE on aarch64
+        pe_lo = 0x400000
+        pe_uinfos = {0: dict(fpreg=None, fpoff=0, ops=[(4, ("alloc", 40))], chain=None, prolog=4)}
+        module_pe(s, "MP", pe_lo, pe_lo + 0x10000, pe_lo, 0x140000000, [(0x1000, 0x1040, 0), (0x1100, 0x1180, 0)], pe_uinfos,
+                  0x1000, bytes([0x90]) * 0x200)
         s.add("new U")
-        for mid in ["MN"] + ["MB%d" % i for i in range(mi)] + ["MG%d" % j for j in range(3)]:
+        for mid in ["MN", "MP"] + ["MB%d" % i for i in range(mi)] + ["MG%d" % j for j in range(3)]:
             s.add("add U " + mid)
         probes = [("nomodule", a) for a in (0x5000, 0x50, 0xfffff, 0x101000, 0x9999999)]
         probes += [("nodata", 0x100000 + rng.below(0x1000)) for _ in range(3)]
@@ -78,6 +83,10 @@ def generate(rng, tier):
                 probes += [(k, lo + rng.below(0x1000)) for _ in range(3)]
         for pres, addrs in gaps.items():
             probes += [("gap-" + pres, a) for a in addrs]
+        pe_reason = "pe-noentry" if arch == "x86" else "pe-a64"
+        probes += [(pe_reason, pe_lo + a) for a in (0x10, 0xfff, 0x1040, 0x10ff, 0x1180, 0x5000)]
+        if arch == "a64":
+            probes += [(pe_reason, pe_lo + 0x1010), (pe_reason, pe_lo + 0x1120)]
         for reason, a in probes:
             for first in (1, 0):
                 for _ in range(2):
@@ -163,7 +172,7 @@ def judge(script, impl):
         o = vlib.outcome(line); rg = vlib.regs_of(line)
         reason, first = m["reason"], m["first"]
         sp, fp, lr = m["sp"], m["fp"], m["lr"]
-        if reason.startswith("gap") and first:
+        if (reason.startswith("gap") and first) or reason == "pe-noentry":
             exp = expect_leaf(arch, sp, fp, lr, memS)
         else:
             exp = expect_fp(arch, sp, fp, lr, memS)
